@@ -184,3 +184,23 @@ Example c07_text_of_a_list_capture_in_memory :
   | None => False
   end.
 Proof. vm_compute. repeat split. Qed.
+
+(* ---------------------------------------------------------------- the walker and the children a node may not have *)
+(* every optional pointer-typed child (BranchStmt.Label, ImportSpec.Name, Field.Tag, FuncDecl.Body, result lists, doc comments ...) is
+   walked under a test of the field itself: whatever the field holds -- a node or a nil pointer -- the walk is total *)
+Theorem C07_walker_optional_children_total : forall node field class optional callee guarded c,
+  In (node, field, class, optional, callee, guarded) gen_walker_children ->
+  String.eqb class "ptr" && optional = true -> holds class c = true ->
+  guarded = true /\ walk_child field_test c = Ok tt.
+Proof. exact walker_optional_children_total. Qed.
+Print Assumptions C07_walker_optional_children_total.
+
+(* a test made behind the conversion to ast.Node (a helper `walkOpt(n ast.Node)`) lets the nil pointer through: Run crashes *)
+Theorem C07_walker_converted_test_crashes :
+  holds "ptr" ChNilPtr = true /\ walk_child converted_test ChNilPtr = Panic PNilDeref /\ walk_child (fun _ => true) ChNilPtr = Panic PNilDeref.
+Proof. exact walk_child_converted_test_crashes. Qed.
+Print Assumptions C07_walker_converted_test_crashes.
+
+Theorem C07_walker_iface_child_total : forall c, holds "iface" c = true -> walk_node c = Ok tt.
+Proof. exact walk_iface_child_total. Qed.
+Print Assumptions C07_walker_iface_child_total.
